@@ -79,7 +79,14 @@ func (lh *WorkerLoop) Run(ctx context.Context) {
 			return
 
 		case msg := <-lh.MessagesChannel:
+			if msg == nil {
+				continue
+			}
 			parsedMessage := interfaces.ToConsensusMessage(msg)
+			if parsedMessage == nil { // content is not a parsable consensus message
+				lh.logger.Info("LHFLOW LHMSG WORKERLOOP - IGNORING UNPARSABLE MESSAGE")
+				continue
+			}
 			lh.logger.Debug("LHFLOW LHMSG WORKERLOOP RECEIVED %v from %v for H=%d V=%d", parsedMessage.MessageType(), parsedMessage.SenderMemberId(), parsedMessage.BlockHeight(), parsedMessage.View())
 			lh.filter.HandleConsensusRawMessage(msg)
 
